@@ -7,14 +7,15 @@
    arm was (re-)added.  The specification has another shape than the model (backward scan per arm versus
    forward fold over calls and over arms).
 
-   Proved for EpsilonGreedy (sum, count, mean), UCB1 (sum, count, mean, N, bound) and Thompson Sampling
-   without binarizer (Beta parameters), for all histories; the Softmax formula is proved for the
-   recomputation step that every call ends with.  Popularity: after every fit / partial_fit the expectation
+   Proved for EpsilonGreedy (sum, count, mean), UCB1 (sum, count, mean, N, bound), Thompson Sampling
+   without binarizer (Beta parameters) and Softmax (sum, count, mean; SoftmaxSpec.v), for all histories; after every
+   call of a Softmax policy the expectation dictionary is the max-shifted soft-max of the means the state holds
+   (every call ends with the recomputation).  Popularity: after every fit / partial_fit the expectation
    is the arm's share mean/sum-of-means of the raw means of the statistics (uniform when all are 0).
    ..._partial: the request pattern of the random draws is covered by the correspondence run only (binarizers:
    see C14). *)
 From Coq Require Import List ZArith Bool QArith Qcanon.
-From MW Require Import Num Assoc Rng CF CFInv CFSpec QcInst PopSpec.
+From MW Require Import Num Assoc Rng CF CFInv CFSpec QcInst PopSpec SoftmaxSpec.
 Import ListNotations.
 
 Theorem C01_epsilon_greedy_running_mean :
@@ -68,6 +69,30 @@ Theorem C01_softmax_is_max_shifted_softmax_of_means_partial :
   aget aeqb (c_stats s) a = None.
 Proof. exact @softmax_expectation_formula. Qed.
 Print Assumptions C01_softmax_is_max_shifted_softmax_of_means_partial.
+
+Theorem C01_softmax_sum_count_mean :
+  forall (R A : Type) (N : Num R) (aeqb : A -> A -> bool),
+  (forall x y : A, aeqb x y = true <-> x = y) ->
+  forall (s0 : cf) (rops : list cfop),
+  c_kind s0 = KSoftmax -> keys_ok s0 ->
+  (forall a : A, In a (c_arms s0) -> softmax_arm_ok N aeqb s0 [] a) ->
+  valid_rev N aeqb s0 rops ->
+  let s := cf_run_rev N aeqb s0 rops in
+  keys_ok s /\ c_kind s = KSoftmax /\
+  (forall a : A, In a (c_arms s) -> softmax_arm_ok N aeqb s (batches_rev aeqb rops a) a).
+Proof. exact @softmax_stat. Qed.
+Print Assumptions C01_softmax_sum_count_mean.
+
+Theorem C01_softmax_expectations_after_every_call :
+  forall (R A : Type) (N : Num R) (aeqb : A -> A -> bool),
+  (forall x y : A, aeqb x y = true <-> x = y) ->
+  forall (s : cf) (o : cfop) (a : A),
+  c_kind s = KSoftmax -> keys_ok s ->
+  match o with OAdd b _ => ~ In b (c_arms s) | _ => True end ->
+  In a (c_arms (cf_step N aeqb s o)) ->
+  aget aeqb (c_exp (cf_step N aeqb s o)) a = Some (softmax_of_means N aeqb (cf_step N aeqb s o) a).
+Proof. exact @softmax_expectations_after_every_call. Qed.
+Print Assumptions C01_softmax_expectations_after_every_call.
 
 (* non-vacuity: a UCB1 policy over the rationals; arm 2 is observed, removed, re-added and observed again.
    The hypotheses hold for the constructed state and the specification evaluates to the expected numbers:
